@@ -110,3 +110,31 @@ def count_statements(nodes):
 
 def has_nested_block(nodes):
     return any(x[0] == "block" and any(c[0] in ("block", "transform") for c in x[3]) for x in nodes)
+
+
+def map_literals(nodes, f):
+    """The same AST with every string literal (text incl. quotes) replaced by f(literal)."""
+    out = []
+    for n in nodes:
+        k = n[0]
+        if k in ("opt", "set"):
+            out.append([k, n[1], f(n[2])])
+        elif k == "kw0":
+            out.append(list(n))
+        elif k == "kw1":
+            out.append([k, n[1], f(n[2])])
+        elif k == "kw2":
+            out.append([k, n[1], f(n[2]), f(n[3])])
+        elif k == "block":
+            out.append([k, n[1], f(n[2]) if n[2] is not None else None, map_literals(n[3], f)])
+        elif k == "transform":
+            out.append([k, n[1], [map_literals(dt, f) for dt in n[2]]])
+        else:
+            raise ValueError(n)
+    return out
+
+
+def respace_literal(lit):
+    """A different literal that is equal once runs of whitespace are collapsed (inside the quotes)."""
+    inner = lit[1:-1]
+    return '"' + inner.replace("  ", "\t").replace(" ", "  ").replace("\n", " \n") + '"'
